@@ -40,6 +40,7 @@ CONTRACTS = {
         params={"values": DICT(STR, ANY), "map_over": SEQ(STR), "map_mode": STR, "clone": ANY},
         returns=SEQ(DICT(STR, ANY)),
         requires=["all(k in values for k in map_over)"],
+        call_site="opaque",  # the precondition (every mapped name is supplied) is established by validate_map_compatible: not discharged at the call site
         # an unknown mode is rejected; the two known modes delegate (their own failures pass through)
         may_raise={"ValueError": True, "Exception": True},
         trace=[{"name": "C10 zip mode expands position-wise, product mode as the cartesian product; nothing else is accepted",
